@@ -470,13 +470,22 @@ func execC25(c c25Case) (res c25Result) {
 
 	// classes, judged from what happened
 	cl := []string{fmt.Sprintf("tlbs=%d", len(c.TLBs)), "bottom=" + c.Bottom, fmt.Sprintf("page=%dK", c.pageSize()/1024)}
-	hit, miss, mh, ev, inval := 0, 0, 0, 0, 0
+	hit, miss, mh, ev, inval, tkPairs, tkLookups := 0, 0, 0, 0, 0, 0, 0
 	for _, ts := range st.stats {
 		hit += ts.hits()
 		miss += ts.misses
 		mh += ts.mshrHits
 		ev += ts.evicts
 		inval += ts.invalid
+		tkPairs += ts.textKeyPairs
+		tkLookups += ts.textKeyLookups
+	}
+	pidDigits, pidFamily := map[int]bool{}, false
+	for _, p := range c.Pages {
+		pidDigits[len(fmt.Sprint(p.PID))] = true
+		for _, q := range c.Pages {
+			pidFamily = pidFamily || (q.PID >= 10 && q.PID/10 == p.PID)
+		}
 	}
 	flag := func(b bool, name string) {
 		if b {
@@ -511,6 +520,10 @@ func execC25(c c25Case) (res c25Result) {
 		}
 	}
 	flag(direct > 0, "direct-translation-reqs")
+	flag(len(pidDigits) > 1, "pids-of-different-decimal-width")
+	flag(pidFamily, "pid-family(p,10p+d)")
+	flag(tkPairs > 0, "tlb-set-holds-two-processes'-entries-with-equal-unpadded-pid+vaddr-text")
+	flag(tkLookups > 0, classTextKeyLookup)
 	res.Classes = cl
 	res.Nontrivial = hit > 0 && miss > 0 && mh > 0 && ev > 0
 	return res
@@ -570,25 +583,109 @@ func genC25(rt *rapid.T, steer c25Steer) (c c25Case, excluded int) {
 	c.Buf = rapid.IntRange(1, 8).Draw(rt, "buf")
 
 	// page table: 1-4 processes over a small VPN pool (so processes share VPNs
-	// and TLB sets collide), distinct frames
+	// and TLB sets collide), distinct frames.
+	// Process IDs: half of the cases use 1..n; the others draw them from ranges
+	// with 1, 2, 3 and up to 10 decimal digits. When there are several processes,
+	// half of the cases make one PID a decimal extension of another (p and
+	// 10p+d: 1/13, 2/27, 13/131 ...).
 	procs := rapid.IntRange(1, 4).Draw(rt, "procs")
+	pids := make([]uint32, procs)
+	for i := range pids {
+		pids[i] = uint32(i) + 1
+	}
+	if rapid.Bool().Draw(rt, "pidpool") {
+		pidGen := rapid.OneOf(rapid.Uint32Range(1, 9), rapid.Uint32Range(1, 9), rapid.Uint32Range(10, 39),
+			rapid.Uint32Range(100, 139), rapid.Uint32Range(1, 999), rapid.Uint32Range(1<<31, 1<<32-1))
+		pids = rapid.SliceOfNDistinct(pidGen, procs, procs, rapid.ID[uint32]).Draw(rt, "pids")
+	}
+	famBase, famExt, famDigit := -1, -1, uint64(0)
+	if procs >= 2 && rapid.Bool().Draw(rt, "pidfamily") {
+		b := rapid.IntRange(0, procs-1).Draw(rt, "fambase")
+		e := (b + rapid.IntRange(1, procs-1).Draw(rt, "famext")) % procs
+		d := rapid.Uint32Range(1, 9).Draw(rt, "famdigit")
+		ext := uint64(pids[b])*10 + uint64(d)
+		dup := ext > 1<<32-1
+		for i, p := range pids {
+			dup = dup || (i != e && uint64(p) == ext)
+		}
+		if !dup {
+			pids[e] = uint32(ext)
+			famBase, famExt, famDigit = b, e, uint64(d)
+		}
+	}
 	maxVPN := uint64(1)<<(63-c.Log2) - 1
 	vpnGen := rapid.OneOf(
-		rapid.Uint64Range(0, 7), rapid.Uint64Range(0, 7), rapid.Uint64Range(0, 40),
+		rapid.Uint64Range(0, 7), rapid.Uint64Range(0, 7), rapid.Uint64Range(0, 40), rapid.Uint64Range(0, 0x3f),
 		rapid.Map(rapid.Uint64Range(0, 7), func(k uint64) uint64 { return 1<<20 + k }),
 		rapid.Map(rapid.Uint64Range(0, 7), func(k uint64) uint64 { return maxVPN - k }),
 	)
 	vpns := rapid.SliceOfNDistinct(vpnGen, 1, 8, rapid.ID[uint64]).Draw(rt, "vpns")
+	// With a PID family (p, 10p+d): for 1-2 pool pages v add the page whose
+	// address reads, in hex, as the digit d followed by the address of v (0x1000
+	// -> 0x11000 for d=1), so that the decimal PID followed by the hex address is
+	// the same text for (p, that page) and (10p+d, v). The two differ by a
+	// multiple of 16 pages, i.e. share a TLB set for 1, 2 and 4 sets.
+	type vpnPair struct{ long, short uint64 }
+	var twins []vpnPair
+	if famBase >= 0 && rapid.IntRange(0, 3).Draw(rt, "twins") > 0 {
+		for n := rapid.IntRange(1, 2).Draw(rt, "ntwins"); n > 0; n-- {
+			v := vpns[rapid.IntRange(0, len(vpns)-1).Draw(rt, "twinof")]
+			if v == 0 {
+				continue
+			}
+			hexLen := uint64(0)
+			for a := v << c.Log2; a > 0; a >>= 4 {
+				hexLen++
+			}
+			if 4*hexLen >= 60 {
+				continue
+			}
+			w := v + famDigit<<(4*hexLen-c.Log2)
+			if w > maxVPN {
+				continue
+			}
+			have := false
+			for _, x := range vpns {
+				have = have || x == w
+			}
+			if !have {
+				vpns = append(vpns, w)
+			}
+			twins = append(twins, vpnPair{long: w, short: v})
+		}
+	}
+	vpnIdx := func(v uint64) int {
+		for i, x := range vpns {
+			if x == v {
+				return i
+			}
+		}
+		panic("vpn not in pool")
+	}
 	maxPages := procs * len(vpns)
 	if maxPages > 14 {
 		maxPages = 14
 	}
 	slots := rapid.SliceOfNDistinct(rapid.IntRange(0, procs*len(vpns)-1), 1, maxPages, rapid.ID[int]).Draw(rt, "pages")
+	var twinSlots []int // (p, long) and (10p+d, short) are mapped
+	for _, tw := range twins {
+		for _, want := range []int{vpnIdx(tw.long)*procs + famBase, vpnIdx(tw.short)*procs + famExt} {
+			have := false
+			for _, s := range slots {
+				have = have || s == want
+			}
+			if !have {
+				slots = append(slots, want)
+			}
+			twinSlots = append(twinSlots, want)
+		}
+	}
 	nOps := rapid.IntRange(3, 70).Draw(rt, "nops")
 	frames := rapid.SliceOfNDistinct(rapid.Uint64Range(1, 250), len(slots)+8, len(slots)+8, rapid.ID[uint64]).Draw(rt, "frames")
 	steeredRemote, steeredPause := false, false
+	var recent []int // recently used pages (locality → hits, MSHR hits)
 	for i, s := range slots {
-		p := pageCfg{PID: uint32(s%procs) + 1, VPN: vpns[s/procs], Frame: frames[i]}
+		p := pageCfg{PID: pids[s%procs], VPN: vpns[s/procs], Frame: frames[i]}
 		if c.Bottom == "gmmu" {
 			p.Remote = rapid.IntRange(0, 2).Draw(rt, "remote") == 0
 			if p.Remote && steer.gmmuRemote {
@@ -596,11 +693,15 @@ func genC25(rt *rapid.T, steer c25Steer) (c c25Case, excluded int) {
 			}
 		}
 		c.Pages = append(c.Pages, p)
+		for _, ts := range twinSlots {
+			if ts == s && len(recent) < 4 {
+				recent = append(recent, i) // the script starts with these pages being the recent ones
+			}
+		}
 	}
 	spare := frames[len(slots):]
 
 	// script
-	var recent []int  // recently used pages (locality → hits, MSHR hits)
 	var updated []int // pages updated since the last covering-all round
 	pickPage := func() int {
 		if len(recent) > 0 && rapid.IntRange(0, 9).Draw(rt, "loc") < 6 {
@@ -608,7 +709,7 @@ func genC25(rt *rapid.T, steer c25Steer) (c c25Case, excluded int) {
 		}
 		p := rapid.IntRange(0, len(c.Pages)-1).Draw(rt, "pi")
 		recent = append(recent, p)
-		if len(recent) > 3 {
+		for len(recent) > 3 {
 			recent = recent[1:]
 		}
 		return p
@@ -805,6 +906,66 @@ func TestC25Stack(t *testing.T) {
 		}
 		run(rt, c)
 	})
+}
+
+// ---------------------------------------------------------------- crafted family
+
+const classTextKeyLookup = "tlb-request-while-other-process'-entry-with-equal-unpadded-pid+vaddr-text-resident"
+
+// TestC25CraftedPIDWidths enumerates a small family the random generator only
+// samples: two processes p and 10p+d and two pages whose (decimal PID, hex
+// address) texts concatenate to the same string, translated one after the other
+// through one or two TLBs in which both land in the same set. Same oracle as
+// TestC25Stack.
+func TestC25CraftedPIDWidths(t *testing.T) {
+	s := kit.Begin(t, "C25", "crafted-pid-widths",
+		"deterministic: AT -> 1-2 TLBs (1/2/4 sets, 1-2 ways) -> MMU; page 4K/16K/64K; processes p in {1,2,12} and 10p+d, d in {1,3,9}; pages v in {1,5} of process 10p+d and the page of process p whose hex address is the digit d followed by the hex address of v; both pages translated (TranslationReq at the top TLB, then reads) in both orders with fences between. Non-trivial: a request reached a TLB while the other process's entry with the same unpadded PID+address text was resident in its set")
+	defer s.End()
+	if kit.ReplayMode() {
+		t.Skip()
+	}
+	s.Exhaustive()
+	for _, log2 := range []uint64{12, 14, 16} {
+		for _, p := range []uint32{1, 2, 12} {
+			for _, d := range []uint32{1, 3, 9} {
+				for _, v := range []uint64{1, 5} {
+					for _, sets := range []int{1, 2, 4} {
+						for ways := 1; ways <= 2; ways++ {
+							for order := 0; order < 2; order++ {
+								hexLen := uint64(0)
+								for a := v << log2; a > 0; a >>= 4 {
+									hexLen++
+								}
+								w := v + uint64(d)<<(4*hexLen-log2)
+								c := c25Case{Log2: log2, Bottom: "mmu", MMULat: 1, MMUMax: 4, ATRPC: 1, MemLat: 1, MemWidth: 1, Buf: 4,
+									TLBs:  []tlbCfg{{Sets: sets, Ways: ways, MSHR: 2, Lat: 2, RPC: 1}},
+									Pages: []pageCfg{{PID: p, VPN: w, Frame: 3}, {PID: p*10 + d, VPN: v, Frame: 5}}}
+								if (sets+ways)%2 == 1 {
+									c.TLBs = append(c.TLBs, tlbCfg{Sets: 1, Ways: 2, MSHR: 1, Lat: 3, RPC: 2})
+								}
+								a, b := order, 1-order
+								c.Ops = []opCfg{{K: "tr", Page: a}, {K: "fence"}, {K: "tr", Page: b}, {K: "fence"},
+									{K: "rd", Page: a, Off: 8, Size: 8}, {K: "fence"}, {K: "rd", Page: b, Off: 16, Size: 8}, {K: "rd", Page: a, Off: 24, Size: 4}}
+								r := execC25(c)
+								if strings.HasPrefix(r.Sig, "harness:") {
+									t.Fatalf("harness problem [%s]: %s", r.Sig, r.Msg)
+								}
+								if r.Sig != "" {
+									s.Fail(t, c, r.Sig, "%s", r.Msg)
+									return
+								}
+								reached := false
+								for _, cl := range r.Classes {
+									reached = reached || cl == classTextKeyLookup
+								}
+								s.Note(c, reached, r.Classes...)
+							}
+						}
+					}
+				}
+			}
+		}
+	}
 }
 
 // ---------------------------------------------------------------- reproductions of listed findings
